@@ -34,9 +34,14 @@ NODES = ["a", "b", "c", "d", "e", "s", "t", "x1", "y", "0", "1", "2", "n_3", "A"
 def gen_world(seed, tier):
     rng = random.Random(H(seed, "c20"))
     blocks = []
+    prev_ns = None
     for b in range(rng.randint(1, 4)):
         n = rng.randint(2, 6)
         ns = rng.sample(NODES, n)
+        if prev_ns is not None and rng.random() < 0.35:
+            ns = list(prev_ns)          # the next block is a variation over the same node names (same #S lines may recur)
+            n = len(ns)
+        prev_ns = ns
         edges = []
         if rng.random() < 0.85:
             # DAG-ish with guaranteed source and sink
@@ -91,7 +96,7 @@ def gen_world(seed, tier):
         blocks.append({"headers": headers, "constraints": cons, "n": 0 if zero else n, "edges": [] if zero else es,
                        "blank_after_header": rng.random() < 0.2, "blank_between": rng.random() < 0.2,
                        "cons_first": rng.random() < 0.3, "indent": rng.random() < 0.1})
-    return {"blocks": blocks, "kind": rng.choice(KINDS), "fseed": rng.randrange(1 << 30),
+    return {"blocks": blocks, "kind": rng.choice(KINDS), "fseed": rng.randrange(1 << 30), "reads": rng.choice([1, 1, 2, 3]),
             "leading_junk": rng.random() < 0.1, "trailing_blank": rng.random() < 0.2}
 
 
@@ -360,12 +365,29 @@ def execute(spec):
     exc = None
     old_open = getattr(gu, "open", None)
     gu.open = fs.open
+    repeat_diff = None
     try:
         with W.active(sim):
             try:
                 got = gu.read_graphs(name)
             except BaseException as e:
                 exc = e
+            # the history dimension: reading the same delivered bytes again gives the same answer
+            for _ in range(world.get("reads", 1) - 1):
+                try:
+                    again = gu.read_graphs(name)
+                    aexc = None
+                except BaseException as e2:
+                    again, aexc = None, e2
+                if (exc is None) != (aexc is None) or (exc is not None and type(exc) is not type(aexc)):
+                    repeat_diff = {"first": type(exc).__name__ if exc else "ok", "again": type(aexc).__name__ if aexc else "ok"}
+                elif exc is None:
+                    def view(gs):
+                        # (the id of a block without a plain header line is an object address: not compared)
+                        return [(sorted((u, v, d.get("flow")) for u, v, d in G.edges(data=True)), G.graph.get("id") if not str(G.graph.get("id")).isdigit() else None,
+                                 [list(map(tuple, c)) for c in G.graph.get("constraints", [])], G.graph.get("n"), G.graph.get("m"), G.graph.get("w")) for G in gs]
+                    if view(got) != view(again):
+                        repeat_diff = {"first": str(view(got))[:300], "again": str(view(again))[:300]}
     finally:
         if old_open is None:
             try:
@@ -388,12 +410,18 @@ def execute(spec):
             exp, rej = None, str(r)
         if rej is not None:
             outcome_kind = "rejected"
+            if repeat_diff is not None:
+                V("second_read_differs", repeat_diff)
             if exc is None:
                 V("malformed_accepted", {"reason": rej, "returned_graphs": len(got), "delivered": delivered.decode("utf-8", "replace")[:400]})
             elif not isinstance(exc, ValueError):
                 V("wrong_exception_type", {"reason": rej, "exc": type(exc).__name__, "msg": str(exc)[:200]})
         else:
             undefined = any((not g["zero"]) and not g["has_source_and_sink"] for g in exp)
+            if repeat_diff is not None and not undefined:
+                # (graphs without source or sink are outside the property: stDiGraph's own source/sink check depends on
+                #  id(self) there - out_edges("source_<id>") iterates the *characters* of the name when the node is absent)
+                V("second_read_differs", repeat_diff)
             if undefined:
                 outcome_kind = "no_source_or_sink"
                 if exc is not None and not isinstance(exc, ValueError):
